@@ -68,9 +68,38 @@ impl<T> Arc<T> {
         }
     }
 
+    /// std's `is_unique`: lock the weak count, look at the strong count.
+    fn is_unique(&mut self) -> bool {
+        if self.inner().weak.compare_exchange(1, usize::MAX, Acquire, Relaxed).is_ok() {
+            let unique = self.inner().strong.load(Acquire) == 1;
+            self.inner().weak.store(1, Release);
+            unique
+        } else {
+            false
+        }
+    }
+
+    pub fn get_mut(this: &mut Self) -> Option<&mut T> {
+        if this.is_unique() {
+            unsafe { Some(&mut *this.inner().data.get()) }
+        } else {
+            None
+        }
+    }
+
+    pub fn as_ptr(this: &Self) -> *const T {
+        this.inner().data.get() as *const T
+    }
+
     pub fn downgrade(this: &Self) -> Weak<T> {
         let mut cur = this.inner().weak.load(Relaxed);
         loop {
+            if cur == usize::MAX {
+                // the weak count is locked by `get_mut`: spin like std does
+                loom::thread::yield_now();
+                cur = this.inner().weak.load(Relaxed);
+                continue;
+            }
             match this.inner().weak.compare_exchange_weak(cur, cur + 1, Acquire, Relaxed) {
                 Ok(_) => return Weak { ptr: this.ptr },
                 Err(old) => {
@@ -168,6 +197,32 @@ impl<T> Weak<T> {
 
     pub fn strong_count(&self) -> usize {
         self.inner().strong.load(Relaxed)
+    }
+
+    pub fn weak_count(&self) -> usize {
+        let weak = self.inner().weak.load(Acquire);
+        let strong = self.inner().strong.load(Relaxed);
+        if strong == 0 {
+            0
+        } else {
+            weak - 1
+        }
+    }
+
+    pub fn ptr_eq(&self, other: &Self) -> bool {
+        self.ptr == other.ptr
+    }
+}
+
+impl<T: PartialEq> PartialEq for Arc<T> {
+    fn eq(&self, other: &Self) -> bool {
+        **self == **other
+    }
+}
+
+impl<T> From<T> for Arc<T> {
+    fn from(v: T) -> Self {
+        Arc::new(v)
     }
 }
 
